@@ -166,13 +166,9 @@ fn dest(cfg: &DocCfg, internal_only: bool) -> BoxedStrategy<String> {
         return proptest::sample::select(exts).boxed();
     }
     let md = cfg.on("dest_md_suffix");
-    let int = proptest::sample::select(ints).prop_flat_map(move |d| {
-        if md {
-            prop_oneof![4 => Just(d.clone()), 1 => Just(format!("{}.md", d))].boxed()
-        } else {
-            Just(d).boxed()
-        }
-    });
+    // (no prop_flat_map here or below: every flat_map forks proptest's RNG, which halves a
+    // pass-through byte stream - see fuzzing.rs)
+    let int = (proptest::sample::select(ints), 0u8..5).prop_map(move |(d, w)| if md && w == 0 { format!("{}.md", d) } else { d });
     if internal_only || exts.is_empty() {
         int.boxed()
     } else {
@@ -403,15 +399,25 @@ fn leaf_block(cfg: &DocCfg, ctx: &str) -> BoxedStrategy<Blk> {
         let ragged = cfg.on("ragged_table");
         opts.push((
             2,
-            (1usize..4, any::<bool>())
-                .prop_flat_map(move |(cols, outer)| {
-                    let rowlen = if ragged { (cols.saturating_sub(1)).max(1)..=cols + 1 } else { cols..=cols };
-                    (
-                        vec(0u8..4, cols),
-                        vec(cell.clone(), cols),
-                        vec(vec(cell.clone(), rowlen), 0..4),
-                        Just(outer),
-                    )
+            (
+                1usize..4,
+                any::<bool>(),
+                vec(0u8..4, 3),
+                vec(cell.clone(), 3),
+                vec((vec(cell.clone(), 4), 0u8..3), 0..4),
+            )
+                .prop_map(move |(cols, outer, mut aligns, mut head, rows, )| {
+                    aligns.truncate(cols);
+                    head.truncate(cols);
+                    let rows: Vec<Vec<Vec<Inl>>> = rows
+                        .into_iter()
+                        .map(|(mut row, r)| {
+                            let len = if ragged { (cols + r as usize).saturating_sub(1).max(1) } else { cols };
+                            row.truncate(len);
+                            row
+                        })
+                        .collect();
+                    (aligns, head, rows, outer)
                 })
                 .prop_map(|(aligns, head, rows, outer)| Blk::Table { aligns, head, rows, outer_pipes: outer || true })
                 .boxed(),
@@ -600,17 +606,15 @@ pub fn doc(cfg: &DocCfg) -> BoxedStrategy<Doc> {
         }
         proptest::option::weighted(
             0.08,
-            (any::<bool>(), 9usize..14, any::<bool>()).prop_flat_map(move |(ordered, n, loose)| {
-                vec(inlines(&cfg, false, 2).prop_map(|i| vec![Blk::Para(i)]), n..n + 3).prop_map(move |items| Blk::List {
-                    ordered,
-                    start: 1,
-                    paren: false,
-                    bullet: 0,
-                    loose,
-                    pad: 1,
-                    same_num: false,
-                    items,
-                })
+            (any::<bool>(), any::<bool>(), vec(inlines(&cfg, false, 2).prop_map(|i| vec![Blk::Para(i)]), 9..17)).prop_map(move |(ordered, loose, items)| Blk::List {
+                ordered,
+                start: 1,
+                paren: false,
+                bullet: 0,
+                loose,
+                pad: 1,
+                same_num: false,
+                items,
             }),
         )
         .boxed()
